@@ -942,6 +942,7 @@ func runC18(c *Ctx) {
 	nestedProxy(c)
 	// ---- proxy on a real server
 	realServer(c)
+	realServerNested(c)
 
 	// ---- isolation (small shards: the cases are large)
 	c.OpenShards("From Verif Require Import Base.Prelude Misc.Hlog Misc.HlogHeap Harness.C18H.\nOpen Scope Z_scope.",
@@ -995,6 +996,8 @@ func replayC18(c *Ctx) {
 		for i := 0; i < 20; i++ { // the goroutine schedule is the runtime's: repeat
 			isoBatch(c, *rp.Case.Config)
 		}
+	case "real-server-nested":
+		realServerNested(c)
 	default:
 		realServer(c)
 	}
